@@ -134,7 +134,34 @@ func runC15(ctx *Ctx) {
 	ctx.CheckRapid("skip", ctx.N(800000, 6000000)/ctx.NShards+1, func(rt *rapid.T) *Case {
 		cfg := &model.StreamCfg{Labels: map[string]int{}}
 		var b []byte
-		switch rapid.IntRange(0, 8).Draw(rt, "class") {
+		switch rapid.IntRange(0, 9).Draw(rt, "class") {
+		case 9:
+			// every varint of a record written in a drawn width (tags padded up to ten
+			// bytes), the value possibly an unterminated run of continuation bytes of
+			// any length: shortcuts that trust "enough bytes are left" meet inputs that
+			// end inside a varint however long the rest is
+			num := uint64(rapid.OneOf(rapid.IntRange(1, 40), rapid.SampledFrom([]int{2047, 2048, 536870911})).Draw(rt, "pnum"))
+			typ := uint64(rapid.SampledFrom([]int{0, 0, 0, 2, 2, 1, 5, 3}).Draw(rt, "ptyp"))
+			tag := num<<3 | typ
+			if rapid.Bool().Draw(rt, "pgroup") {
+				b = protowire.AppendTag(b, protowire.Number(rapid.IntRange(1, 20).Draw(rt, "pg")), protowire.StartGroupType)
+			}
+			b = appendPadded(b, tag, rapid.IntRange(protowire.SizeVarint(tag), 10).Draw(rt, "tagwidth"))
+			run := rapid.IntRange(0, 24).Draw(rt, "run")
+			fill := byte(rapid.SampledFrom([]int{0xff, 0x80, 0x81}).Draw(rt, "fill"))
+			for i := 0; i < run; i++ {
+				b = append(b, fill)
+			}
+			switch rapid.IntRange(0, 3).Draw(rt, "pend") {
+			case 0: // ends inside the varint
+			case 1:
+				b = append(b, 0x01)
+			case 2:
+				b = append(b, 0x00)
+				b = append(b, rapid.SliceOfN(rapid.Byte(), 0, 20).Draw(rt, "ptail")...)
+			case 3:
+				b = append(b, rapid.SliceOfN(rapid.SampledFrom([]byte{0xff, 0x80, 0x00, 0x01, 0x7f}), 0, 20).Draw(rt, "ptail2")...)
+			}
 		case 8:
 			// a group holding length-delimited records with hostile or boundary lengths
 			num := protowire.Number(rapid.IntRange(1, 3000).Draw(rt, "gnum"))
